@@ -109,6 +109,8 @@ def raw_os_escape_key(v):
         lv = eq_leaves(x) if x.get("op") == "bin" and x.get("f") == "=" else None
         if lv:
             r.append(pool[lv[0][1] - 1])
+        if x.get("op") == "in" and not x.get("neg"):       # c IN ('v', 'v') is simplified to c = 'v'
+            r += [pool[e["v"]["v"] - 1] for e in x["list"] if e.get("op") == "lit" and e["v"]["k"] == "s"]
         for k in ("l", "r", "e"):
             r += lits(x.get(k))
         return r
@@ -151,7 +153,7 @@ def run(ctx):
         write_evidence(ctx, "exploration", {"evaluations": max(1, res["evaluations"]), "distinct_nontrivial": 2, "rule": "replay of one recorded case",
                                             "samples": res["samples"] or [{"replay": ctx.replay}]})
         return
-    rounds = 6 if ctx.quick else 40
+    rounds = 6 if ctx.quick else 24
     nlay, nflt, neq = (12, 7, 5) if ctx.quick else (30, 14, 8)
     cases = []
     states = 0
